@@ -45,22 +45,44 @@ def Poly.mul (p q : Poly) : Poly :=
 def atom (n : Nat) : Poly := [([n], 1)]
 def const (c : Int) : Poly := if c = 0 then [] else [([], c)]
 
-/-- a·B + b·H + b2·H2; `smallOrder` marks the torsion keys of the small-order guard -/
+/-- a·B + b·H + b2·H2 + tor·T8, where T8 generates the 8-torsion (`tor` is taken mod 8).
+    `junk` marks a point whose torsion part could not be computed (a scalar of unknown residue
+    mod 8 times a point with torsion): it equals no named point. -/
 structure Pt where
   a : Poly
   b : Poly
   b2 : Poly
-  torsion : Bool := false
+  tor : Nat := 0
+  junk : Bool := false
 deriving DecidableEq, Repr
 
-def Pt.zero : Pt := ⟨[], [], [], false⟩
-def ptB : Pt := ⟨const 1, [], [], false⟩
-def ptH : Pt := ⟨[], const 1, [], false⟩
-def ptH2 : Pt := ⟨[], [], const 1, false⟩
+def Pt.zero : Pt := ⟨[], [], [], 0, false⟩
+def ptB : Pt := ⟨const 1, [], [], 0, false⟩
+def ptH : Pt := ⟨[], const 1, [], 0, false⟩
+def ptH2 : Pt := ⟨[], [], const 1, 0, false⟩
+/-- the i-th multiple of the order-8 generator -/
+def ptT (i : Nat) : Pt := ⟨[], [], [], i % 8, false⟩
 
-def Pt.add (p q : Pt) : Pt := ⟨p.a.add q.a, p.b.add q.b, p.b2.add q.b2, p.torsion || q.torsion⟩
-def Pt.neg (p : Pt) : Pt := ⟨p.a.neg, p.b.neg, p.b2.neg, p.torsion⟩
-def Pt.smul (s : Poly) (p : Pt) : Pt := ⟨s.mul p.a, s.mul p.b, s.mul p.b2, p.torsion⟩
+/-- residue mod 8 of a scalar, when it is determined: integer constants, and the challenge atom
+    `c4` (atom 8) whose residue `rho` the crafted proof fixes by construction -/
+def resid (rho : Nat) (s : Poly) : Option Nat :=
+  s.foldl (fun acc (m, c) =>
+    match acc with
+    | none => none
+    | some r =>
+      if m.all (· == 8) then
+        some ((r + (c % 8).toNat * (rho ^ m.length % 8)) % 8)
+      else none) (some 0)
+
+def Pt.add (p q : Pt) : Pt :=
+  ⟨p.a.add q.a, p.b.add q.b, p.b2.add q.b2, (p.tor + q.tor) % 8, p.junk || q.junk⟩
+def Pt.neg (p : Pt) : Pt := ⟨p.a.neg, p.b.neg, p.b2.neg, (8 - p.tor % 8) % 8, p.junk⟩
+def Pt.smulR (rho : Nat) (s : Poly) (p : Pt) : Pt :=
+  if p.tor = 0 then ⟨s.mul p.a, s.mul p.b, s.mul p.b2, 0, p.junk⟩
+  else match resid rho s with
+    | some r => ⟨s.mul p.a, s.mul p.b, s.mul p.b2, (r * p.tor) % 8, p.junk⟩
+    | none => ⟨s.mul p.a, s.mul p.b, s.mul p.b2, 0, true⟩
+def Pt.smul (s : Poly) (p : Pt) : Pt := Pt.smulR 0 s p
 
 def X : Poly := atom 0
 def K : Poly := atom 1
@@ -70,6 +92,8 @@ def C1 : Poly := atom 4
 def C2 : Poly := atom 5
 def C9 : Poly := atom 6
 def C3 : Poly := atom 7
+/-- the challenge of the crafted Gamma+T proof -/
+def C4 : Poly := atom 8
 
 /-- the two challenge tuples that have a name: the prover's and the alternative-nonce one -/
 def tuple1 : Pt × Pt × Pt × Pt := (ptH, Pt.smul X ptH, Pt.smul K ptB, Pt.smul K ptH)
@@ -77,10 +101,18 @@ def tuple2 : Pt × Pt × Pt × Pt := (ptH, Pt.smul X ptH, Pt.smul K2 ptB, Pt.smu
 /-- the other key's own proof (its hash-to-curve point is H2, its nonce k2) -/
 def tuple3 : Pt × Pt × Pt × Pt := (ptH2, Pt.smul X2 ptH2, Pt.smul K2 ptB, Pt.smul K2 ptH2)
 
+/-- the tuple hashed by the crafted proof with `Gamma = x·H + T_i`, nonce k2 and challenge residue
+    `rho`:  (H, x·H + T_i, k2·B, k2·H − rho·T_i) -/
+def tuple4 (i rho : Nat) : Pt × Pt × Pt × Pt :=
+  (ptH, Pt.add (Pt.smul X ptH) (ptT i), Pt.smul K2 ptB,
+   Pt.add (Pt.smul K2 ptH) (Pt.neg (ptT (rho * i))))
+
 /-- secret keys: 0 = the prover's (scalar x), anything else = the other key (scalar x2);
-    messages: 0 = the proved message, anything else = another message -/
-def sym : Prims Pt Poly Nat Nat Pt :=
-  { add := Pt.add, neg := Pt.neg, smul := Pt.smul, base := ptB
+    messages: 0 = the proved message, anything else = another message.
+    `ti`, `rho`: the torsion multiple and challenge residue of the crafted Gamma+T proof of the op
+    (0, 0 when there is none). -/
+def symT (ti rho : Nat) : Prims Pt Poly Nat Nat Pt :=
+  { add := Pt.add, neg := Pt.neg, smul := Pt.smulR rho, base := ptB
     sadd := Poly.add, smulS := Poly.mul
     scalarOf := fun sk => if sk = 0 then X else X2
     h2c := fun y m => if y == Pt.smul X ptB && m == 0 then ptH else ptH2
@@ -89,14 +121,18 @@ def sym : Prims Pt Poly Nat Nat Pt :=
       -- every tuple a prover of this op hashes has its own atom; any other tuple gets `C9`,
       -- which no proof carries (an injective hash restricted to the tuples that occur)
       if (h, g, u, v) == tuple1 then C1 else if (h, g, u, v) == tuple2 then C2
-      else if (h, g, u, v) == tuple3 then C3 else C9
-    outHash := fun g => g
-    smallOrder := fun y => y.torsion && y.a.isEmpty && y.b.isEmpty && y.b2.isEmpty }
+      else if (h, g, u, v) == tuple3 then C3
+      else if ti % 8 ≠ 0 && (h, g, u, v) == tuple4 ti rho then C4 else C9
+    -- the output hashes cofactor·Gamma: the torsion part does not enter
+    outHash := fun g => { g with tor := 0 }
+    smallOrder := fun y => y.a.isEmpty && y.b.isEmpty && y.b2.isEmpty && !y.junk }
+
+def sym : Prims Pt Poly Nat Nat Pt := symT 0 0
 
 /-! names: the vocabulary shared with the harness -/
 
 def scalarNames : List (String × Poly) :=
-  [("0", []), ("x", X), ("k", K), ("k2", K2), ("x2", X2), ("c1", C1), ("c2", C2),
+  [("0", []), ("x", X), ("k", K), ("k2", K2), ("x2", X2), ("c1", C1), ("c2", C2), ("c4", C4),
    ("s1", K.add (C1.mul X)), ("s2", K2.add (C2.mul X))]
 
 def pointNames : List (String × Pt) :=
